@@ -136,6 +136,24 @@ impl RegexMatcher {
     }
 }
 
+#[cfg(feature = "verif-hooks")]
+impl RegexMatcher {
+    /// Verification hook: the error, if any, with which the regex engine gives
+    /// up on `path` (such a path is reported as not matching).
+    pub fn match_error(&self, path: &str) -> Option<String> {
+        self.regex
+            .match_with_param(
+                path,
+                0,
+                SearchOptions::SEARCH_OPTION_NONE,
+                None,
+                MatchParam::default(),
+            )
+            .err()
+            .map(|e| e.description().to_string())
+    }
+}
+
 impl Matcher for RegexMatcher {
     fn matches(&self, file_info: &WalkEntry, _: &mut MatcherIO) -> bool {
         let path = file_info.path().to_string_lossy();
